@@ -397,17 +397,20 @@ match_interpolate(struct match *mh, const struct macro_list *macros)
 			}
 		}
 		TAILQ_FOREACH(str, mh->mh_expr->ex_strings, entry) {
+			/* Only interpolate what originates from the config. */
+			buf = interpolate(mh, macros, str->val);
+			if (buf == NULL) {
+				buffer_free(bf);
+				return 1;
+			}
 			if (buffer_get_len(bf) > 0)
 				buffer_putc(bf, ' ');
-			buffer_printf(bf, "%s", str->val);
+			buffer_printf(bf, "%s", buf);
+			free(buf);
 		}
 		buffer_putc(bf, '\0');
-		buf = buffer_release(bf);
+		label = buffer_release(bf);
 		buffer_free(bf);
-		label = interpolate(mh, macros, buf);
-		free(buf);
-		if (label == NULL)
-			return 1;
 		message_set_header(msg, "X-Label", label);
 		break;
 	}
